@@ -131,6 +131,19 @@ type vhandler struct {
 	loopTid         int32
 	dupMu           sync.Mutex
 	userDups        []int // descriptors obtained through Conn.Dup: ours to close
+	slowTick        int32 // 1 while a slow OnTick is running
+}
+
+// awaitSlowTick waits (briefly) until a slow OnTick is in progress, so that the shutdown request that follows
+// arrives while a callback of the ticker goroutine is running.
+func (h *vhandler) awaitSlowTick() {
+	if h.cfg == nil || !h.cfg.ticker {
+		return
+	}
+	deadline := time.Now().Add(300 * time.Millisecond)
+	for atomic.LoadInt32(&h.slowTick) == 0 && time.Now().Before(deadline) {
+		time.Sleep(200 * time.Microsecond)
+	}
 }
 
 func (h *vhandler) OnBoot(eng Engine) Action {
@@ -151,7 +164,9 @@ func (h *vhandler) OnTick() (time.Duration, Action) {
 		return time.Hour, Shutdown
 	}
 	if n%3 == 0 {
+		atomic.StoreInt32(&h.slowTick, 1)
 		time.Sleep(25 * time.Millisecond) // a tick that takes a while: shutdown requests arrive while it runs
+		atomic.StoreInt32(&h.slowTick, 0)
 	}
 	h.rec.emit("TickEnd", "n", int(n), "action", int(None))
 	return 10 * time.Millisecond, None
